@@ -92,6 +92,49 @@ Section Shapes.
     now rewrite row_parent_elem.
   Qed.
 
+  (* C16, ANY condition on the parent (any tree of comparisons / memberships / expressions / and / or / not / nested queries over
+     the parent variable): the parents are filtered, every surviving parent is unnested in full *)
+  Lemma var_bound v : eval_term (TVar x) (bind [] x v) = [(bind [] x v, v)].
+  Proof. cbn [EvalPure.eval_term lookup bind]. now rewrite Nat.eqb_refl. Qed.
+
+  Lemma rows_of_parent v :
+    map (row_of h dom [TVar x; TFlat id t]) (bind_selected h dom [TVar x; TFlat id t] (bind [] x v)) = map (fun e => [v; e]) (inner v).
+  Proof.
+    cbn [bind_selected]. rewrite var_bound. cbn [flat_map fst]. rewrite app_nil_r. rewrite flat_bound_x, flat_map_map'. cbn [fst].
+    induction (inner v) as [|e l IHl]; [reflexivity|]. cbn [flat_map map app]. now rewrite row_parent_elem, IHl.
+  Qed.
+
+  Theorem unnest_where c : c1 x c = true ->
+    run_query h dom [TVar x; TFlat id t] (Some c)
+    = flat_map (fun v => if isat h dom c (ev v) then map (fun e => [v; e]) (inner v) else []) (dom x).
+  Proof.
+    intros C. unfold run_query. rewrite (eval_unbound h dom x c C [] false eq_refl).
+    induction (dom x) as [|v d IH]; [reflexivity|]. cbn [flat_map]. rewrite filter_app, map_app, flat_map_app, IH. f_equal.
+    unfold out. destruct (isat h dom c (ev v)); cbn [filter map flat_map snd fst negb app]; [|reflexivity].
+    rewrite app_nil_r. apply rows_of_parent.
+  Qed.
+
+  (* ... and a condition on the parent AND a condition on the flattened element *)
+  Lemma row_bound v e :
+    map (row_of h dom [TVar x; TFlat id t]) (bind_selected h dom [TVar x; TFlat id t] (bind (bind [] x v) id e)) = [[v; e]].
+  Proof.
+    cbn [bind_selected EvalPure.eval_term]. rewrite lookup_x_in. cbn [flat_map fst app]. rewrite lookup_id_in. cbn [flat_map fst app map].
+    now rewrite row_parent_elem.
+  Qed.
+
+  Theorem unnest_where_filtered c o w : c1 x c = true ->
+    run_query h dom [TVar x; TFlat id t] (Some (CAnd c (CCmp o (TFlat id t) (TLit w))))
+    = flat_map (fun v => if isat h dom c (ev v) then map (fun e => [v; e]) (filter (fun e => apply_op o e w) (inner v)) else []) (dom x).
+  Proof.
+    intros C. unfold run_query. cbn [EvalPure.eval]. rewrite (eval_unbound h dom x c C [] false eq_refl).
+    induction (dom x) as [|v d IH]; [reflexivity|]. cbn [flat_map]. rewrite !flat_map_app, filter_app, map_app, flat_map_app, IH. f_equal. clear IH.
+    unfold out. destruct (isat h dom c (ev v)); cbn [flat_map snd fst app]; [|reflexivity].
+    rewrite app_nil_r. unfold bound_in. cbn [tvars existsb]. unfold cmp_rows. rewrite flat_bound_x, flat_map_map'. cbn [fst snd EvalPure.eval_term flat_map].
+    induction (inner v) as [|e l IHl]; [reflexivity|]. cbn [map flat_map filter fst snd]. rewrite app_nil_r, orb_false_r.
+    destruct (apply_op o e w); cbn [app filter map flat_map snd fst negb]; [|exact IHl].
+    rewrite row_bound. cbn [app]. f_equal. exact IHl.
+  Qed.
+
   (* ---------- C17 ---------- *)
   Definition all_elems : val := VTup (flat_map (fun v => atoms_of (tval t (ev v))) (dom x)).
 
